@@ -515,3 +515,14 @@ _obligations_c11c = obligations
 
 def obligations(ctx, cfg):
     return _obligations_c11c(ctx, cfg) + [ReadbackHistory(ctx)]
+
+
+_obligations_c11d = obligations
+
+
+def obligations(ctx, cfg):
+    # what a delivery reports about its message (map_to_received_message)
+    from props.C09 import ParseAndMap
+    pm = ParseAndMap()
+    pm.id = 'C11.h-delivery-reports-the-stored-message'
+    return _obligations_c11d(ctx, cfg) + [pm]
